@@ -157,6 +157,9 @@ def seed_alphabet(g):
         out.append(np_seed(g, g.choice(base)))
     if g.random() < 0.3:
         out.append(np_seed(g, 0))
+    if g.random() < 0.15:
+        # beyond what np.random.seed accepts (it raises, consistently) but fine for default_rng
+        out.append(g.choice([2 ** 32, 2 ** 32 + g.getrandbits(20), 2 ** 63 + g.getrandbits(30)]))
     return out
 
 
@@ -164,5 +167,5 @@ def seed_class(s):
     v = seed_value(s)
     if v is None:
         return "none"
-    c = "0" if v == 0 else "small" if v < 1000 else "32bit"
+    c = "0" if v == 0 else "small" if v < 1000 else "32bit" if v < 2 ** 32 else "big"
     return c + ("/np" if seed_is_numpy(s) else "")
